@@ -1260,6 +1260,107 @@ fn run_stream_events(
 /// it holds none – awaits the stream (2 s budget: a stream that is stalled never wakes it).
 /// What happened is written as the expanded event list (`EV`) with one `e<k>` line per event, in
 /// the format of the controlled runs.
+type TokLog = Rc<RefCell<(Vec<String>, Vec<String>, Vec<Tok>)>>;
+
+/// Consumer of one stream inside a tokio task: holds at most `hold` FnRefs, never yields to the
+/// runtime unless the stream is `Pending` with nothing held.
+async fn tokio_consume<'g>(stream: BoxStream<'g>, hold: usize, log2: TokLog) {
+    use std::collections::VecDeque;
+    let mut stream = stream;
+    let mut held: VecDeque<FnRef<'_, Fun>> = VecDeque::new();
+    let push = |ev: String, ob: String| {
+        let mut l = log2.borrow_mut();
+        l.0.push(ev);
+        l.1.push(ob);
+    };
+    loop {
+        let polled = match futures::poll!(stream.next()) {
+            Poll::Ready(item) => Some(item),
+            Poll::Pending => {
+                if let Some(r) = held.pop_front() {
+                    let i = r.idx;
+                    log2.borrow_mut().2.push(Tok::End(i, true));
+                    drop(r);
+                    push(format!("d{i}"), "W-".to_string());
+                    continue;
+                }
+                match tokio::time::timeout(std::time::Duration::from_secs(2), stream.next()).await {
+                    Ok(item) => Some(item),
+                    Err(_) => None,
+                }
+            }
+        };
+        match polled {
+            None => {
+                push("n".to_string(), "P W0".to_string());
+                break;
+            }
+            Some(None) => {
+                push("n".to_string(), "N W-".to_string());
+                break;
+            }
+            Some(Some(SItem::Yield(r))) => {
+                let i = r.idx;
+                log2.borrow_mut().2.push(Tok::Start(i));
+                push("n".to_string(), format!("Y{i} W-"));
+                held.push_back(r);
+                while held.len() > hold {
+                    if let Some(r) = held.pop_front() {
+                        let i = r.idx;
+                        log2.borrow_mut().2.push(Tok::End(i, true));
+                        drop(r);
+                        push(format!("d{i}"), "W-".to_string());
+                    }
+                }
+            }
+            Some(Some(SItem::Interrupted(o))) => {
+                match o {
+                    Some(r) => {
+                        let i = r.idx;
+                        log2.borrow_mut().2.push(Tok::Start(i));
+                        push("n".to_string(), format!("I{i} W-"));
+                        held.push_back(r);
+                    }
+                    None => push("n".to_string(), "I- W-".to_string()),
+                }
+                break;
+            }
+        }
+    }
+    drop(held);
+    drop(stream);
+}
+
+fn tokio_stream_of<'g>(g: &'g FnGraph<Fun>, cfg: &StreamCfg) -> BoxStream<'g> {
+    let (_tx, rx) = mpsc::channel::<InterruptSignal>(16);
+    let takes_opts = cfg.int || cfg.rev || cfg.strat != Strat::Non;
+    let rx_lib = if takes_opts && cfg.strat != Strat::Non {
+        Some(rx)
+    } else {
+        None
+    };
+    make_stream(g, cfg, rx_lib)
+}
+
+fn tokio_emit(id: u64, prefix: &str, log: &TokLog, ok: bool, lines: &mut Vec<String>, flags: &mut RtFlags) {
+    let l = log.borrow();
+    lines.push(format!(
+        "OBS {id} {prefix}EV {}",
+        if l.0.is_empty() { "-".to_string() } else { l.0.join(" ") }
+    ));
+    for (k, ob) in l.1.iter().enumerate() {
+        lines.push(format!("OBS {id} {prefix}e{k} {ob}"));
+    }
+    flags.panic |= !ok;
+    lines.push(format!("OBS {id} {prefix}Z {}", if ok { "ok" } else { "X" }));
+    lines.push(format!("OBS {id} {prefix}T {}", fmt_trace(&l.2)));
+}
+
+fn new_tok_log() -> TokLog {
+    Rc::new(RefCell::new((Vec::new(), Vec::new(), Vec::new())))
+}
+
+/// `t<hold>`: the stream is consumed inside a real tokio current-thread runtime.
 fn run_stream_tokio(
     id: u64,
     prefix: &str,
@@ -1269,99 +1370,56 @@ fn run_stream_tokio(
     lines: &mut Vec<String>,
     flags: &mut RtFlags,
 ) {
-    use std::collections::VecDeque;
-    let (_tx, rx) = mpsc::channel::<InterruptSignal>(16);
-    let takes_opts = cfg.int || cfg.rev || cfg.strat != Strat::Non;
-    let rx_lib = if takes_opts && cfg.strat != Strat::Non {
-        Some(rx)
-    } else {
-        None
-    };
-    let stream = make_stream(g, cfg, rx_lib);
-    let log: Rc<RefCell<(Vec<String>, Vec<String>, Vec<Tok>)>> = Rc::new(RefCell::new((Vec::new(), Vec::new(), Vec::new())));
+    let stream = tokio_stream_of(g, cfg);
+    let log = new_tok_log();
     let log2 = log.clone();
     let res = catch_unwind(AssertUnwindSafe(move || {
         let rt = tokio::runtime::Builder::new_current_thread()
             .enable_time()
             .build()
             .expect("tokio runtime");
+        rt.block_on(tokio_consume(stream, hold, log2))
+    }));
+    tokio_emit(id, prefix, &log, res.is_ok(), lines, flags);
+}
+
+/// Several streams on one graph value consumed inside ONE tokio task (one cooperative budget):
+/// `joined` = polled side by side with `join!` (two streams), otherwise one after the other without
+/// yielding to the runtime in between.
+fn run_streams_tokio_one_task(
+    id: u64,
+    g: &FnGraph<Fun>,
+    runs: &[(String, StreamCfg, usize)],
+    joined: bool,
+    lines: &mut Vec<String>,
+    flags: &mut RtFlags,
+) {
+    let logs: Vec<TokLog> = runs.iter().map(|_| new_tok_log()).collect();
+    let logs2 = logs.clone();
+    let res = catch_unwind(AssertUnwindSafe(move || {
+        let rt = tokio::runtime::Builder::new_current_thread()
+            .enable_time()
+            .build()
+            .expect("tokio runtime");
         rt.block_on(async move {
-            let mut stream = stream;
-            let mut held: VecDeque<FnRef<'_, Fun>> = VecDeque::new();
-            let push = |ev: String, ob: String| {
-                let mut l = log2.borrow_mut();
-                l.0.push(ev);
-                l.1.push(ob);
-            };
-            loop {
-                let polled = match futures::poll!(stream.next()) {
-                    Poll::Ready(item) => Some(item),
-                    Poll::Pending => {
-                        if let Some(r) = held.pop_front() {
-                            let i = r.idx;
-                            log2.borrow_mut().2.push(Tok::End(i, true));
-                            drop(r);
-                            push(format!("d{i}"), "W-".to_string());
-                            continue;
-                        }
-                        match tokio::time::timeout(std::time::Duration::from_secs(2), stream.next()).await {
-                            Ok(item) => Some(item),
-                            Err(_) => None,
-                        }
-                    }
-                };
-                match polled {
-                    None => {
-                        push("n".to_string(), "P W0".to_string());
-                        break;
-                    }
-                    Some(None) => {
-                        push("n".to_string(), "N W-".to_string());
-                        break;
-                    }
-                    Some(Some(SItem::Yield(r))) => {
-                        let i = r.idx;
-                        log2.borrow_mut().2.push(Tok::Start(i));
-                        push("n".to_string(), format!("Y{i} W-"));
-                        held.push_back(r);
-                        while held.len() > hold {
-                            if let Some(r) = held.pop_front() {
-                                let i = r.idx;
-                                log2.borrow_mut().2.push(Tok::End(i, true));
-                                drop(r);
-                                push(format!("d{i}"), "W-".to_string());
-                            }
-                        }
-                    }
-                    Some(Some(SItem::Interrupted(o))) => {
-                        match o {
-                            Some(r) => {
-                                let i = r.idx;
-                                log2.borrow_mut().2.push(Tok::Start(i));
-                                push("n".to_string(), format!("I{i} W-"));
-                                held.push_back(r);
-                            }
-                            None => push("n".to_string(), "I- W-".to_string()),
-                        }
-                        break;
-                    }
+            if joined && runs.len() == 2 {
+                let sa = tokio_stream_of(g, &runs[0].1);
+                let sb = tokio_stream_of(g, &runs[1].1);
+                futures::join!(
+                    tokio_consume(sa, runs[0].2, logs2[0].clone()),
+                    tokio_consume(sb, runs[1].2, logs2[1].clone())
+                );
+            } else {
+                for (k, (_, cfg, hold)) in runs.iter().enumerate() {
+                    let s = tokio_stream_of(g, cfg);
+                    tokio_consume(s, *hold, logs2[k].clone()).await;
                 }
             }
-            drop(held);
-            drop(stream);
         })
     }));
-    let l = log.borrow();
-    lines.push(format!(
-        "OBS {id} {prefix}EV {}",
-        if l.0.is_empty() { "-".to_string() } else { l.0.join(" ") }
-    ));
-    for (k, ob) in l.1.iter().enumerate() {
-        lines.push(format!("OBS {id} {prefix}e{k} {ob}"));
+    for (k, (prefix, _, _)) in runs.iter().enumerate() {
+        tokio_emit(id, prefix, &logs[k], res.is_ok(), lines, flags);
     }
-    flags.panic |= res.is_err();
-    lines.push(format!("OBS {id} {prefix}Z {}", if res.is_ok() { "ok" } else { "X" }));
-    lines.push(format!("OBS {id} {prefix}T {}", fmt_trace(&l.2)));
 }
 
 /// One wake-driven step of the consumer of `run_stream_race`: polls (until `Pending`) only if the
@@ -1637,6 +1695,29 @@ fn run_body(c: &RtCase, lines: &mut Vec<String>, flags: &mut RtFlags) {
                 }
             }
         }
+        Body::H(runs) if c.family.starts_with("tokio") => {
+            // every run is a stream consumed by `t<hold>`; all of them inside one tokio task, one
+            // after the other; oracle: each alone on a freshly built graph in a runtime of its own
+            let specs: Vec<(String, StreamCfg, usize)> = runs
+                .iter()
+                .enumerate()
+                .filter_map(|(j, r)| match r {
+                    Run::Stream(cfg, evs) => match evs.as_slice() {
+                        [SEv::Tokio(h)] => Some((format!("r{j}."), cfg.clone(), *h)),
+                        _ => None,
+                    },
+                    Run::Call(..) => None,
+                })
+                .collect();
+            run_streams_tokio_one_task(id, &g, &specs, false, lines, flags);
+            for (j, (_, cfg, hold)) in specs.iter().enumerate() {
+                let Some(fresh) = build_graph(&c.ops) else {
+                    continue;
+                };
+                let mut fl = RtFlags::default();
+                run_stream_tokio(id, &format!("f{j}."), &fresh, cfg, *hold, lines, &mut fl);
+            }
+        }
         Body::H(runs) => {
             for (j, r) in runs.iter().enumerate() {
                 let prefix = format!("r{j}.");
@@ -1835,6 +1916,29 @@ fn run_body(c: &RtCase, lines: &mut Vec<String>, flags: &mut RtFlags) {
                     }
                 }
                 finish_call(id, "fB.", &mut run, lines, &mut fl);
+            }
+        }
+        Body::Z(a, b, evs) if c.family.starts_with("tokio") => {
+            // two streams on one graph value consumed side by side (`join!`) inside one tokio task
+            let hold_of = |side: bool| {
+                evs.iter()
+                    .find_map(|(is_b, e)| match e {
+                        SEv::Tokio(h) if *is_b == side => Some(*h),
+                        _ => None,
+                    })
+                    .unwrap_or(0)
+            };
+            let specs = vec![
+                ("A.".to_string(), a.clone(), hold_of(false)),
+                ("B.".to_string(), b.clone(), hold_of(true)),
+            ];
+            run_streams_tokio_one_task(id, &g, &specs, true, lines, flags);
+            for (pre, cfg, hold) in [("fA.", a, hold_of(false)), ("fB.", b, hold_of(true))] {
+                let Some(fresh) = build_graph(&c.ops) else {
+                    continue;
+                };
+                let mut fl = RtFlags::default();
+                run_stream_tokio(id, pre, &fresh, cfg, hold, lines, &mut fl);
             }
         }
         Body::Z(a, b, evs) => {
